@@ -61,7 +61,7 @@ type Contracts struct {
 
 var clauseKW = map[string]bool{"assumes": true, "requires": true, "ensures": true, "xensures": true, "panics": true,
 	"modifies": true, "ghost": true, "loop": true, "serves": true, "inline": true, "dataplane": true,
-	"dependency": true, "trusted": true, "assert": true, "callback": true, "noinline": true, "pure": true, "typeparams": true, "xpure": true, "callbackframe": true, "maypanic": true, "lockedcallbacks": true, "mayfault": true}
+	"dependency": true, "trusted": true, "posttrusted": true, "assert": true, "callback": true, "noinline": true, "pure": true, "typeparams": true, "xpure": true, "callbackframe": true, "maypanic": true, "lockedcallbacks": true, "mayfault": true}
 
 var reLabel = regexp.MustCompile(`^([A-Za-z_][A-Za-z0-9_.\-]*):\s+`)
 
@@ -138,7 +138,7 @@ func parseContracts(dir string, tags string) (*Contracts, error) {
 					}
 					curClause = nil
 					continue
-				case "inline", "dataplane", "dependency", "trusted", "noinline", "pure", "callback", "xpure", "callbackframe", "maypanic", "lockedcallbacks", "mayfault":
+				case "inline", "dataplane", "dependency", "trusted", "posttrusted", "noinline", "pure", "callback", "xpure", "callbackframe", "maypanic", "lockedcallbacks", "mayfault":
 					cur.Flags[first] = true
 					if rest != "" {
 						cl.Text = rest
